@@ -22,6 +22,25 @@ def _mkscratch():
     return tempfile.mkdtemp(prefix="verif-", dir=base)
 
 
+_POOL_TIMEOUT_S = 3600    # a dead worker must not hang the driver for ever
+
+
+def _safe(fn):
+    """Pool workers must only raise picklable exceptions (a ConductorError with keyword-only
+    constructor arguments cannot be unpickled in the parent and would hang the pool)."""
+    import functools
+    import traceback
+
+    @functools.wraps(fn)
+    def wrapper(job):
+        try:
+            return fn(job)
+        except BaseException:
+            raise RuntimeError("harness worker %s crashed on job %r:\n%s"
+                               % (fn.__name__, job, traceback.format_exc())) from None
+    return wrapper
+
+
 # --------------------------------------------------------------------------- accumulator
 def _size(inp):
     text = json.dumps(inp, default=str, sort_keys=True)
@@ -150,6 +169,7 @@ def _dep_lists(root):
     return out
 
 
+@_safe
 def _spawn_worker(job):
     args_index, opt_index = job
     import conductor.execution.ops.run_task_executable as rte
@@ -199,8 +219,8 @@ def _spawn_worker(job):
             options = dict(opt_items)
             op = rte.RunTaskExecutable(
                 initial_state=OperationState.QUEUED, identifier=ident, task=None, run=run_str,
-                args=RunArguments.from_raw(ident, list(raw_args)),
-                options=RunOptions.from_raw(ident, options),
+                args=RunArguments(list(raw_args)),
+                options=RunOptions(options),
                 working_path=working_path, output_path=output_path, deps_output_paths=list(deps),
                 record_output=record, version_to_record=Version(17, None, False) if versioned else None,
                 serialize_args_options=versioned, parallelizable=slot is not None)
@@ -209,9 +229,17 @@ def _spawn_worker(job):
                    "deps_output_paths": [str(d.relative_to(root)) for d in deps], "slot": slot,
                    "record_output": record, "os_environ": environ}
             del calls[:]
-            with mock.patch.object(os, "environ", dict(environ)), \
-                    mock.patch.object(rte.subprocess, "Popen", recorder):
-                handle = op.start_execution(ctx, slot)
+            try:
+                with mock.patch.object(os, "environ", dict(environ)), \
+                        mock.patch.object(rte.subprocess, "Popen", recorder):
+                    handle = op.start_execution(ctx, slot)
+            except Exception as ex:  # the executor would report the task as failed / crash
+                for acc in (cmd, env_, slot_):
+                    acc.ev += 1
+                cmd.fail("no_exception", "start_execution-raises", inp, "an execution handle",
+                         ("%s: %s" % (type(ex).__name__, getattr(ex, "extra_context", None) or ex))
+                         .replace(scratch, "<scratch>"))
+                continue
             for h in (handle.stdout, handle.stderr):
                 if h is not None:
                     h.finish()
@@ -254,11 +282,13 @@ def _spawn_worker(job):
             if env is None:
                 env_.fail("env_passed", "no-env-passed", inp, "env mapping", None)
             elif env.get("COND_NAME") != name:
-                env_.fail("COND_NAME", "inherited-COND_NAME" if env.get("COND_NAME") == environ.get("COND_NAME")
-                          else "wrong-COND_NAME", inp, name, env.get("COND_NAME"))
+                env_.fail("COND_NAME", "inherited-COND_NAME" if ("COND_NAME" in environ and
+                                                             env.get("COND_NAME") == environ["COND_NAME"])
+                          else ("COND_NAME-missing" if "COND_NAME" not in env else "wrong-COND_NAME"), inp, name, env.get("COND_NAME"))
             elif env.get("COND_OUT") != str(output_path):
-                env_.fail("COND_OUT", "inherited-COND_OUT" if env.get("COND_OUT") == environ.get("COND_OUT")
-                          else "wrong-COND_OUT", inp, output_path, env.get("COND_OUT"))
+                env_.fail("COND_OUT", "inherited-COND_OUT" if ("COND_OUT" in environ and
+                                                           env.get("COND_OUT") == environ["COND_OUT"])
+                          else ("COND_OUT-missing" if "COND_OUT" not in env else "wrong-COND_OUT"), inp, output_path, env.get("COND_OUT"))
             elif not os.path.isabs(env["COND_OUT"]):
                 env_.fail("COND_OUT_absolute", "relative-COND_OUT", inp, "absolute", env["COND_OUT"])
             elif not call["out_is_dir"]:
@@ -267,7 +297,7 @@ def _spawn_worker(job):
             elif env.get("COND_DEPS") != exp_deps:
                 env_.fail("COND_DEPS", "inherited-COND_DEPS" if (environ.get("COND_DEPS") is not None and
                                                                   env.get("COND_DEPS") == environ.get("COND_DEPS"))
-                          else "wrong-COND_DEPS", inp, repr(exp_deps), repr(env.get("COND_DEPS")))
+                          else ("COND_DEPS-missing" if "COND_DEPS" not in env else "wrong-COND_DEPS"), inp, repr(exp_deps), repr(env.get("COND_DEPS")))
             elif env.get("PATH") != environ.get("PATH"):
                 env_.fail("inherits_environment", "parent-environment-not-inherited", inp,
                           environ.get("PATH"), env.get("PATH"))
@@ -396,7 +426,10 @@ def _serialize_args(tier):
             if any(type(v) is bool for v in values) and len(values) > 1:
                 a.nt += 1
                 a.sample({"args": list(values)})
-            got = RunArguments(list(values)).serialize_cmdline()
+            try:
+                got = RunArguments(list(values)).serialize_cmdline()
+            except Exception as ex:
+                got = "raises %s" % type(ex).__name__
             exp = o_args(values)
             if got != exp:
                 a.fail("serialize_cmdline", "wrong-args-serialisation", {"args": list(values)},
@@ -417,7 +450,10 @@ def _serialize_options(tier):
                 if k >= 2 and list(ks) != sorted(ks):
                     a.nt += 1
                     a.sample({"options": [list(i) for i in items]})
-                got = RunOptions(dict(items)).serialize_cmdline()
+                try:
+                    got = RunOptions(dict(items)).serialize_cmdline()
+                except Exception as ex:
+                    got = "raises %s" % type(ex).__name__
                 exp = o_options(items)
                 if got != exp:
                     cls = "options-order-not-declared-order" if sorted(got.split(" ")) == sorted(exp.split(" ")) \
@@ -427,6 +463,7 @@ def _serialize_options(tier):
     return a
 
 
+@_safe
 def _serialize_worker(job):
     which, tier = job
     return which, (_serialize_args(tier) if which == "args" else _serialize_options(tier))
@@ -446,13 +483,13 @@ def run(tier, seed):
         t1 = time.time()
         outp, deps_, ino = _lib_checks()
         wall_lib = time.time() - t1
-        for c, e, s, l in spawn_job.get():
+        for c, e, s, l in spawn_job.get(_POOL_TIMEOUT_S):
             cmd.merge(c)
             env_.merge(e)
             slot_.merge(s)
             lib_deps.merge(l)
         wall_spawn = time.time() - t0
-        for which, acc in ser_job.get():
+        for which, acc in ser_job.get(_POOL_TIMEOUT_S):
             ser[which] = acc
         wall_ser = time.time() - t0
     deps_.merge(lib_deps)
